@@ -12,3 +12,4 @@ rc=${PIPESTATUS[0]}
 git -C /repo checkout -- .
 [ -f /tmp/.seedrun-evidence-$prop.json ] && mv /tmp/.seedrun-evidence-$prop.json evidence/$prop.json
 echo "check rc=$rc; /repo restored: $(git -C /repo status --porcelain | wc -l) dirty files"
+python3-vt -m fsv.build >/dev/null 2>&1   # leave /verif/.target holding a build of the restored tree, not of the change
